@@ -22,6 +22,8 @@ Proof. intros [c t b p e bu] r. reflexivity. Qed.
 Lemma execute_decide : forall e h t s, execute e h t s = run_outcome s (decide e h t s).
 Proof.
   intros e h t s.
+  Ltac fin e s := unfold wst; destruct (g003 (gates e)); destruct s; cbn [andb]; try reflexivity;
+    repeat match goal with |- context [if ?c then _ else _] => destruct c end; reflexivity.
   destruct t as [src jok typ id stake acct kok | src jok id delta | src jok amount id | src jok id acct | src evm];
     cbn [execute decide].
   - destruct jok; cbn [negb]; [|now rewrite run_fail].
@@ -31,12 +33,12 @@ Proof.
     destruct (bal s src <? tok stake); [now rewrite run_fail|].
     destruct (is_some (get_miner s id)); [now rewrite run_fail|].
     destruct (is_some (by_account e s (if N.eqb acct 0 then src else acct))); [now rewrite run_fail|].
-    destruct s; reflexivity.
+    fin e s.
   - destruct jok; cbn [negb]; [|now rewrite run_fail].
     destruct (N.eqb delta 0); [now rewrite run_fail|].
     destruct (bal s src <? tok delta); [now rewrite run_fail|].
     destruct (get_miner s id) as [[k sl]|] eqn:Eg; [|now rewrite run_fail].
-    apply get_miner_some in Eg. destruct Eg as (_ & _ & ->). destruct s; reflexivity.
+    apply get_miner_some in Eg. destruct Eg as (_ & _ & ->). fin e s.
   - destruct jok; cbn [negb]; [|now rewrite run_fail].
     destruct amount as [money0|]; [|now rewrite run_fail].
     destruct (get_miner s id) as [[k sl]|] eqn:Eg; [|now rewrite run_fail].
@@ -44,21 +46,21 @@ Proof.
     destruct (s_stake sl <? (if N.eqb money0 MAXU64 then s_stake sl else money0))%N; [now rewrite run_fail|].
     apply get_miner_some in Eg. destruct Eg as (_ & _ & ->).
     destruct (_ <? min_stake k)%N.
-    + unfold remove_miner. destruct (N.eqb _ 0 && negb (contract e src))%bool; destruct s; reflexivity.
-    + destruct s; reflexivity.
+    + unfold remove_miner. destruct (N.eqb _ 0 && negb (contract e src))%bool; fin e s.
+    + fin e s.
   - destruct jok; cbn [negb]; [|now rewrite run_fail].
     destruct (get_miner s id) as [[k sl]|] eqn:Eg; [|now rewrite run_fail].
     destruct (N.eqb (s_acct sl) acct); [now rewrite run_fail|].
     destruct (N.eqb (s_acct sl) src); cbn [negb]; [|now rewrite run_fail].
     destruct (is_some (by_account e s acct)); [now rewrite run_fail|].
-    apply get_miner_some in Eg. destruct Eg as (_ & _ & ->). destruct s; reflexivity.
+    apply get_miner_some in Eg. destruct Eg as (_ & _ & ->). fin e s.
   - destruct (bal s src <? ten_tokens); [now rewrite run_fail|].
     set (s1 := set_bal s (fst (sub_bal (bal s) src ten_tokens))).
     assert (Hf : forall r, run_outcome s (fail s1 r) = (s1, r)) by (intros r; destruct s; reflexivity).
     destruct (by_account e s1 src) as [id|]; [|apply eq_sym, Hf].
     destruct (get_miner s1 id) as [[k sl]|] eqn:Eg; [|apply eq_sym, Hf].
     destruct evm as [c|]; [|apply eq_sym, Hf].
-    apply get_miner_some in Eg. destruct Eg as (_ & _ & ->). destruct s; reflexivity.
+    apply get_miner_some in Eg. destruct Eg as (_ & _ & ->). fin e s.
 Qed.
 
 (* ---------- states that agree on every read ---------- *)
@@ -96,8 +98,8 @@ Qed.
 (* the SetData sequences refine the slot updates *)
 Lemma apply_w_sim : forall st w k' i', view_cur (k_apply_w st w) k' i' = apply_w (view_cur st) w k' i'.
 Proof.
-  intros st w k' i'. destruct w as [|k i ap stake acct|k i stake acct stat|k i|k i lft];
-    cbn [KeyModel.k_apply_w apply_w]; [reflexivity| | | |]; unfold KeyModel.view_cur, updr, kupd;
+  intros st w k' i'. destruct w as [|k i ap stake acct [|]|k i stake acct [x|]|k i|k i lft];
+    cbn [KeyModel.k_apply_w apply_w]; try reflexivity; unfold KeyModel.view_cur, updr, kupd;
     rewrite ?k0_kf, ?k1_kf, ?k2_kf, ?k3_kf; rewrite ?key_eqb by lia; cbn [Nat.eqb andb];
     destruct (N.eqb_spec k' k) as [->|]; cbn [andb]; try reflexivity;
     destruct (N.eqb_spec i' i) as [->|]; cbn [andb rd_info rd_stake rd_acct rd_stat]; try reflexivity;
@@ -142,16 +144,17 @@ Theorem k_run_tx_sim : forall e h t s,
   snd (k_run_tx e h t s) = snd (run_tx e h t (view s)).
 Proof.
   intros e h t s. unfold k_run_tx, run_tx, fee_step. cbn [KeyModel.view bal].
-  destruct (kbal s (tx_src t) <? tx_fee).
+  destruct (kbal s (tx_src t) <? tx_fee e).
   - cbn. unfold st_eq. repeat split; reflexivity.
   - set (s1 := {| kcur := kcur s; ktrie := ktrie s; kbal := _; kpend := kpend s; kesc := kesc s; kburned := kburned s |}).
-    assert (Hv : view s1 = set_bal (view s) (add_bal (fst (sub_bal (kbal s) (tx_src t) tx_fee)) fee_account tx_fee)) by reflexivity.
+    assert (Hv : view s1 = set_bal (view s) (add_bal (fst (sub_bal (kbal s) (tx_src t) (tx_fee e))) fee_account (tx_fee e))) by reflexivity.
     rewrite <- Hv. destruct (k_execute_sim e h t s1) as [Hs Hr].
     destruct (k_execute e h t s1) as [s2 r] eqn:Ek. destruct (execute e h t (view s1)) as [s2' r'] eqn:Ee.
     cbn [fst snd] in Hs, Hr. subst r'.
     destruct r; cbn [fst snd]; try (split; [exact Hs|reflexivity]);
-      (split; [|reflexivity]); destruct Hs as (_ & _ & _ & Hp & _); unfold st_eq;
-      cbn [KeyModel.view cur trie bal pend esc burned kcur ktrie kbal kpend kesc kburned]; repeat split; try reflexivity; exact Hp.
+      (split; [|reflexivity]); destruct Hs as (_ & _ & Hb2 & Hp & _); unfold st_eq;
+      cbn [KeyModel.view cur trie bal pend esc burned kcur ktrie kbal kpend kesc kburned]; repeat split; try reflexivity; try exact Hp;
+      (destruct (g002 (gates e)); [reflexivity|exact Hb2]).
 Qed.
 
 (* ---------- the slot-level theorems about one transaction, for the key-level state ---------- *)
@@ -194,10 +197,10 @@ Proof.
 Qed.
 
 (* conservation, registry well-formedness - key level *)
-Theorem k_inv_step : forall A I W e h t s, universe A I -> supply_bound W -> tx_closed A I t -> led_inv A I W (view s) ->
-  led_inv A I W (view (fst (k_run_tx e h t s))).
+Theorem k_inv_step : forall A I W e h t s, g002 (gates e) = true -> universe A I -> supply_bound W -> tx_closed A I t ->
+  led_inv A I W (view s) -> led_inv A I W (view (fst (k_run_tx e h t s))).
 Proof.
-  intros A I W e h t s HU HW Hcl Hinv. destruct (k_run_tx_sim e h t s) as [E _].
+  intros A I W e h t s G2 HU HW Hcl Hinv. destruct (k_run_tx_sim e h t s) as [E _].
   apply (led_inv_ext _ _ _ _ _ E). apply run_tx_inv; assumption.
 Qed.
 
@@ -277,7 +280,7 @@ Theorem alias_stake_refuted : forall st k x y n ap stake acct,
   idkey y = X1 x -> X1 x <> X2 x -> X1 x <> X3 x -> X1 x <> X4 x ->
   st k (k1 H idkey x) = Some (CStake n) ->
   rd_info (st k (k0 idkey y)) = None /\
-  s_stake (view_cur (k_apply_w st (WNew k y ap stake acct)) k x) = JSONPFX.
+  s_stake (view_cur (k_apply_w st (WNew k y ap stake acct true)) k x) = JSONPFX.
 Proof.
   intros st k x y n ap stake acct Ey N2 N3 N4 Hs. unfold k0, k1 in *. split; [rewrite Ey, Hs; reflexivity|].
   cbn [KeyModel.k_apply_w]. unfold KeyModel.view_cur, kupd, k0, k1, k2, k3. cbn [s_stake]. rewrite !Ey, N.eqb_refl. cbn [andb].
@@ -290,7 +293,7 @@ Theorem alias_account_refuted : forall st k x y a ap stake acct,
   idkey y = X2 x -> X2 x <> X3 x -> X2 x <> X4 x -> X2 x <> X5 x ->
   st k (k2 H idkey x) = Some (CAcct a) ->
   rd_info (st k (k0 idkey y)) = None /\
-  s_acct (view_cur (k_apply_w st (WNew k y ap stake acct)) k x) = junk_json y.
+  s_acct (view_cur (k_apply_w st (WNew k y ap stake acct true)) k x) = junk_json y.
 Proof.
   intros st k x y a ap stake acct Ey N3 N4 N5 Hs. unfold k0, k2 in *. split; [rewrite Ey, Hs; reflexivity|].
   cbn [KeyModel.k_apply_w]. unfold KeyModel.view_cur, kupd, k0, k1, k2, k3. cbn [s_acct]. rewrite !Ey, N.eqb_refl. cbn [andb].
@@ -303,7 +306,7 @@ Theorem alias_status_refuted : forall st k x y ap stake acct,
   st k (k3 H idkey x) = Some (CStat 1) ->
   rd_info (st k (k0 idkey y)) = None /\
   s_stat (view_cur st k x) = 1%N /\
-  s_stat (view_cur (k_apply_w st (WNew k y ap stake acct)) k x) = 0%N.
+  s_stat (view_cur (k_apply_w st (WNew k y ap stake acct true)) k x) = 0%N.
 Proof.
   intros st k x y ap stake acct Ey N4 N5 N6 Hs. unfold k0, k3 in *. split; [rewrite Ey, Hs; reflexivity|].
   split; [unfold KeyModel.view_cur, k3; cbn [s_stat]; rewrite Hs; reflexivity|].
@@ -317,7 +320,7 @@ End Refuted.
    for miner 1 in the second transaction - so the guard keys_disjoint cannot be dropped *)
 Definition Hc (x : key) : key := (x + 1)%N.
 Definition idc (i : N) : key := (9 + i)%N.
-Definition env_a : env := {| ids := [1%N; 2%N]; contract := fun _ => false |}.
+Definition env_a : env := {| ids := [1%N; 2%N]; contract := fun _ => false; gates := all_gates |}.
 Definition rich2 : bals := fun a => if (N.eqb a 2 || N.eqb a 3)%bool then tok 10000 else 0.
 Definition k_empty : kst :=
   {| kcur := fun _ _ => None; ktrie := fun _ _ => None; kbal := rich2; kpend := []; kesc := []; kburned := 0 |}.
